@@ -162,7 +162,7 @@ class Ctx(object):
         self.taken.append(d)
         return d
 
-    def oblige(self, name, goal, where='', pure_hyps=None):
+    def oblige(self, name, goal, where='', pure_hyps=None, assume_after=True):
         import time
         if isinstance(goal, bool):
             goal = z3.BoolVal(goal)
@@ -197,7 +197,8 @@ class Ctx(object):
                 dt = time.time() - t0
                 self.obligations.append(Obligation(name, 'refuted', model=s2.model(), where=where, time=dt,
                                                    detail='[weak model: quantified hypotheses dropped] ' + str(goal)[:360]))
-                self.assume(goal)
+                if assume_after:
+                    self.assume(goal)
                 return
         dt = time.time() - t0
         if r == z3.unsat:
@@ -215,7 +216,8 @@ class Ctx(object):
             else:
                 self.obligations.append(Obligation(name, 'unknown', where=where, time=dt,
                                                    detail=str(goal)[:400]))
-        self.assume(goal)
+        if assume_after:
+            self.assume(goal)
 
     def cover(self, name):
         self.covers.add(name)
@@ -267,6 +269,13 @@ class ModuleVal(Model):
         if name in self.env.vars:
             return self.env.vars[name]
         raise Unsupported("module %s has no attribute %s" % (self.name, name))
+
+
+class StarSeq(object):
+    """f(*seq) with seq of symbolic length, for callees that accept it (star_ok)"""
+
+    def __init__(self, seq):
+        self.seq = seq
 
 
 class Unmodelled(Model):
@@ -1524,7 +1533,11 @@ class Interp(object):
         args = []
         for a in e.args:
             if isinstance(a, ast.Starred):
-                args.extend(self.concrete_list(self.eval(a.value, env)))
+                sv = self.eval(a.value, env)
+                if getattr(f, 'star_ok', False) and not isinstance(sv, (list, tuple)):
+                    args.append(StarSeq(sv))     # callee takes its arguments as one opaque sequence
+                else:
+                    args.extend(self.concrete_list(sv))
             else:
                 args.append(self.eval(a, env))
         kwargs = {}
